@@ -27,9 +27,22 @@ type GobS struct {
 	B string
 }
 
+// GobT is a second struct value; it is registered in a variadic call behind an already registered type.
+type GobT struct {
+	N int
+	S string
+}
+
 var gobOnce sync.Once
 
-func registerGob() { gobOnce.Do(func() { cache.GobRegister(GobS{}) }) }
+// registerGob registers the value types the way an application with several packages does: one type on its own,
+// then a variadic call that names it again next to a new one.
+func registerGob() {
+	gobOnce.Do(func() {
+		cache.GobRegister(GobS{})
+		cache.GobRegister(GobS{}, GobT{})
+	})
+}
 
 // xfer is a uniform view of a cache for transfer checks; values travel as interface{}.
 type xfer interface {
@@ -148,7 +161,7 @@ func xferValues(kind string) []interface{} {
 		return []interface{}{GobS{}, GobS{1, "b"}}
 	}
 
-	return []interface{}{nil, 0, "", 7, "x", GobS{}, GobS{1, "b"}}
+	return []interface{}{nil, 0, "", 7, "x", GobS{}, GobT{1, "b"}}
 }
 
 var c13Lens = []int{0, 1, 2, 9, 70}
